@@ -288,10 +288,13 @@ class ChildrenList(list):
         :type item: :py:class:`psyclone.psyir.nodes.Node`
 
         '''
-        for position in range(self.index(item) + 1, len(self)):
+        # list.remove() deletes the first child that *equals* item, which
+        # is not necessarily the same object, so work on that child.
+        index = self.index(item)
+        for position in range(index + 1, len(self)):
             self._validate_item(position - 1, self[position])
-        self._del_parent_link(item)
-        super().remove(item)
+        self._del_parent_link(self[index])
+        super().__delitem__(index)
         self._node_reference.update_signal()
 
     def pop(self, index=-1):
